@@ -803,9 +803,15 @@ class EEA:
                 if not sub_facts:
                     return frozenset()
                 nested.extend(sub_facts)
+            elif self._keeps_containers(b, h):
+                continue  # validation / bookkeeping that cannot remove an entry from any container
             else:
                 return frozenset()  # anything else could change the containers again
         if not guards and not nested:
+            return frozenset()
+        # a parameter that appears in a guard must not be re-bound by the helper
+        bound_ = {n_.id for n_ in ast.walk(h.node) if isinstance(n_, ast.Name) and isinstance(n_.ctx, (ast.Store, ast.Del))}
+        if any(isinstance(n_, ast.Name) and n_.id in bound_ for k_, d_ in guards for n_ in list(ast.walk(k_)) + list(ast.walk(d_))):
             return frozenset()
         params = list(h.positional_params)
         sub: dict[str, ast.expr] = {}
@@ -837,6 +843,32 @@ class EEA:
                 continue
             out.add(("in", norm(k2), norm(d2)))
         return frozenset(out)
+
+    _TOTAL_BUILTINS = ("int", "float", "str", "round", "len", "isinstance", "bool", "abs", "min", "max", "repr")
+
+    def _keeps_containers(self, stmt: ast.stmt, h) -> bool:
+        """A statement of a guard helper that cannot remove an entry from any mapping: no suspension point, no `del`, no
+        call other than value conversions and exception constructors, no store other than into a local name or an
+        attribute of an object (not a subscript, not an attribute that holds a container named in a guard)."""
+        for n in ast.walk(stmt):
+            if isinstance(n, (ast.Await, ast.Delete, ast.Yield, ast.YieldFrom, ast.AsyncFor, ast.AsyncWith, ast.With, ast.For, ast.While, ast.Global, ast.Nonlocal, ast.FunctionDef, ast.AsyncFunctionDef, ast.Lambda, ast.NamedExpr)):
+                return False
+            if isinstance(n, ast.Call):
+                if isinstance(n.func, ast.Name) and n.func.id in self._TOTAL_BUILTINS:
+                    continue
+                c = self._exc_class_in(h.module, n.func) if isinstance(n.func, (ast.Name, ast.Attribute)) else None
+                if c and self._is_exception_class(c):
+                    continue
+                return False
+            if isinstance(n, (ast.Assign, ast.AnnAssign, ast.AugAssign)):
+                tg = n.targets if isinstance(n, ast.Assign) else [n.target]
+                for t in tg:
+                    if isinstance(t, ast.Name):
+                        continue
+                    if isinstance(t, ast.Attribute) and t.attr not in ("nodes", "children", "values", "set_messages", "internal_messages"):
+                        continue
+                    return False
+        return True
 
     def _taint_source(self, value: ast.expr, fr: Frame) -> bool:
         v = value.value if isinstance(value, ast.Await) else value
